@@ -19,9 +19,19 @@ static void scan_pair(struct opt_scan *o, size_t first, uint64_t second) { o->fi
 
 /* ---- BitStream::scan_for ------------------------------------------------------------------------------------- */
 static size_t g_p;                  /* ghost: an absolute (cooked) cell position */
+static size_t g_q;                  /* ghost: a second position -- "the search was at g_q" */
+static struct { uint64_t win, got; } g_scan_q;     /* ghost log (written by SCAN_GHOST_LOG): shifter and got when the search was at g_q */
+#define SCAN_GHOST_LOG if (i_cooked == g_q) { g_scan_q.win = shifter; g_scan_q.got = got; }
+#define SCAN_GOT_AT(start, q) (((q) - (start) >= 63) ? 0xFFFFFFFFFFFFFFFFull : ((1ull << (((q) - (start) + 1) & 63)) - 1ull))
 static struct opt_scan BitStream_scan_for(const struct BitStream *self, size_t start, uint64_t val, uint64_t mask)
 __CPROVER_requires(BS_OK(self) && start <= (1ul << 24) && self->first_ <= self->raw_bit_size_)
-__CPROVER_assigns()
+__CPROVER_assigns(g_scan_q)
+/* FIRST match: at no earlier position g_q of this search did the word seen there match (that word is the cells that end
+   at g_q, as many as the search had read: its bit g_q - g_p is cell g_p) */
+__CPROVER_ensures((__CPROVER_return_value.has && g_q >= start && g_q < __CPROVER_return_value.first) ==>
+                  (g_scan_q.got == SCAN_GOT_AT(start, g_q) &&
+                   !((mask & g_scan_q.got) == mask && (mask & g_scan_q.win) == (mask & val)) &&
+                   ((g_p >= start && g_p <= g_q && g_q - g_p < 64 && CELL_IN(self, g_q)) ==> ((((g_scan_q.win >> ((g_q - g_p) & 63)) & 1) != 0) == CELL(self, g_p)))))
 /* found: a position at or after start, inside the stream ... */
 __CPROVER_ensures(__CPROVER_return_value.has ==>
                   (__CPROVER_return_value.first >= start && __CPROVER_return_value.first < self->raw_bit_size_ &&
@@ -134,7 +144,7 @@ __CPROVER_ensures(__CPROVER_return_value == h_crc_pref[3 + data->n])
 static struct opt_uint fm_find_record_address_mark(size_t *thisbit_, const struct BitStream *bits, size_t bits_avail)
 __CPROVER_requires(BS_OK(bits) && bits->first_ <= bits->raw_bit_size_ && __CPROVER_is_fresh(thisbit_, sizeof(*thisbit_)))
 __CPROVER_requires(*thisbit_ <= (1ul << 20) && bits_avail <= 8 * TRACK_BYTES)
-__CPROVER_assigns(*thisbit_)
+__CPROVER_assigns(*thisbit_, g_scan_q)
 __CPROVER_ensures(*thisbit_ >= __CPROVER_old(*thisbit_) && (*thisbit_ == __CPROVER_old(*thisbit_) || *thisbit_ <= 8 * TRACK_BYTES))
 __CPROVER_ensures(__CPROVER_return_value.has ==>
                   ((__CPROVER_return_value.val == 0xF56A || __CPROVER_return_value.val == 0xF56F) &&
